@@ -8,6 +8,10 @@ CONSTANTS
   MutDepth = 2
   VarLens = {0,1,2,245,246,247,248,249,250,251,252,253,254,255,256,257,258}
   BigLens = {7168}
+  BodyAlphabet = {}
+  BodyExtra = 0
+  BodyCap = 0
+  RepCap = 0
   ShortIds = {0}
   ShortPairIds = {0}
 INIT InitStruct
